@@ -206,7 +206,14 @@ def hash_event(r, oid):
                     return None
                 e = es[r.rng.randrange(len(es))]
                 args = (e,) if r.b.kind in ("hg", "dir") else (e[1], e[0])
-                if r.rng.random() < 0.4:
+                u = r.rng.random()
+                if u < 0.25:
+                    # ... or the weights 0 and 1 (an explicit zero is a weight like any other: DESIGN.md section 2)
+                    h.set_weight(*args, 0)
+                    a = hash_hypergraph(h)
+                    h.set_weight(*args, 1)
+                    return a, hash_hypergraph(h)
+                if u < 0.55:
                     # ... or two whole numbers (same type: int) beyond 2**53, where floats can no longer tell neighbours apart
                     w = 2 ** 53 + 2 * r.rng.randrange(0, 2 ** 20)
                     h.set_weight(*args, w)
